@@ -444,4 +444,16 @@ func init() {
 		Old:    "&& n.Ident == old.Ident && (!n.IsSelf || old.IsSelf) {",
 		New:    "&& n.Ident == old.Ident {",
 		Expect: "n-self=true,old-self=false"})
+	addFixture(Fixture{Name: "uniqueness-check-misses-the-last-name", Rule: "R-LOOP-FULL", File: "process/name.go",
+		Old:    "\texists := make(map[string]bool)\n\tfor _, name := range list {\n\t\tif exists[name.Ident] {\n\t\t\treturn false\n\t\t}\n\t\texists[name.Ident] = true\n\t}\n\n\treturn true",
+		New:    "\tfor i := 0; i < len(list)-1; i++ {\n\t\tfor j := i + 1; j < len(list)-1; j++ {\n\t\t\tif list[i].Ident == list[j].Ident {\n\t\t\t\treturn false\n\t\t\t}\n\t\t}\n\t}\n\n\treturn true",
+		Expect: "process.AllNamesUnique | short-loop"})
+	addFixture(Fixture{Name: "split-subject-under-its-own-binders", Rule: "R-BINDERS", File: "process/form.go",
+		Old:    "func (p *SplitForm) Substitute(old, new Name) {\n\tp.from_c.Substitute(old, new)\n\n\tif !p.channel_one.Equal(old) && !p.channel_two.Equal(old) {",
+		New:    "func (p *SplitForm) Substitute(old, new Name) {\n\tif !p.channel_one.Equal(old) && !p.channel_two.Equal(old) {\n\t\tp.from_c.Substitute(old, new)\n\t}\n\n\tif !p.channel_one.Equal(old) && !p.channel_two.Equal(old) {",
+		Expect: "name-substituted:from_c"})
+	addFixture(Fixture{Name: "context-maps-recycled-through-a-package-channel", Rule: "R-GLOBALS", File: "process/typechecker.go",
+		Old:    "func nameTypeExists(namesTypesCtx NamesTypesCtx, key string) bool {",
+		New:    "var spareContexts = make(chan NamesTypesCtx, 4)\n\nfunc recycleContext(ctx NamesTypesCtx) {\n\tselect {\n\tcase spareContexts <- ctx:\n\tdefault:\n\t}\n}\n\nfunc nameTypeExists(namesTypesCtx NamesTypesCtx, key string) bool {",
+		Expect: "global:process.spareContexts"})
 }
